@@ -65,6 +65,30 @@ theorem c17_match_spec (lower : Char → Char) (isSpace : Char → Bool) (urlOk 
     (matchImpl (genCfg lower isSpace urlOk) s p).1 = outOf (resolve (genCfg lower isSpace urlOk) s.l p) :=
   c17_match_spec_generic _ s p hwf (Or.inl c17_source_facts.2.1)
 
+/-- non-vacuity of `WF`: a table in which an exact route shadows a directory route, under a
+    catch-all "/" -/
+example : WF (routeOps (genCfg PathCanon.asciiLower PathCanon.asciiSpace (fun _ => true)))
+    { m := [("/a/".toList, ⟨"/a/".toList, "rtsp://h/x".toList, false⟩), ("/a/b".toList, ⟨"/a/b".toList, "rtsp://h/y/".toList, true⟩),
+            ("/".toList, ⟨"/".toList, "rtsp://h".toList, false⟩)]
+      l := [⟨"/a/".toList, "rtsp://h/x".toList, false⟩, ⟨"/a/b".toList, "rtsp://h/y/".toList, true⟩, ⟨"/".toList, "rtsp://h".toList, false⟩]
+      saves := [], removes := [] } :=
+  ⟨by decide, by decide, by decide⟩
+
+/-- … on which the model resolves the three shapes named in the statement (a test of the model
+    on literals, not the unbounded claim): exact hit, nested directory, catch-all, trailing slash -/
+example :
+    let cfg := genCfg PathCanon.asciiLower PathCanon.asciiSpace (fun _ => true)
+    let s : State Route :=
+      { m := [("/a/".toList, ⟨"/a/".toList, "rtsp://h/x".toList, false⟩), ("/a/b".toList, ⟨"/a/b".toList, "rtsp://h/y/".toList, true⟩),
+              ("/".toList, ⟨"/".toList, "rtsp://h".toList, false⟩)]
+        l := [⟨"/a/".toList, "rtsp://h/x".toList, false⟩, ⟨"/a/b".toList, "rtsp://h/y/".toList, true⟩, ⟨"/".toList, "rtsp://h".toList, false⟩]
+        saves := [], removes := [] }
+    (matchImpl cfg s " /A/B ".toList).1 = .found ⟨"/a/b".toList, "rtsp://h/y/".toList, true⟩ ∧
+    (matchImpl cfg s "/a/b/c".toList).1 = .found ⟨"/a/b/c".toList, "rtsp://h/x/b/c".toList, false⟩ ∧
+    (matchImpl cfg s "/z".toList).1 = .found ⟨"/z".toList, "rtsp://h/z".toList, false⟩ ∧
+    (matchImpl cfg s "/a/b/".toList).1 = .none := by
+  decide
+
 /-- The order in which `range t.m` visits the Go map cannot matter: for every permutation of
     the map's entries Match returns the same result (the longest matching directory pattern is
     unique). -/
@@ -112,6 +136,13 @@ theorem c17_url_join (cfg : Cfg) (p pattern url : List Char)
       obtain ⟨u', hu'⟩ := List.getLast?_eq_some_iff.1 hu
       rw [hu']; simp
     · rfl
+
+/-- non-vacuity of the hypotheses of `c17_url_join` -/
+example :
+    let cfg := genCfg PathCanon.asciiLower PathCanon.asciiSpace (fun _ => true)
+    ("/a/".toList).getLast? = some '/' ∧ isPrefix "/a/".toList (canon cfg "/A//b/./c".toList) = true ∧
+    (canon cfg "/A//b/./c".toList).getLast? ≠ some '/' := by
+  decide
 
 /-- A lookup never modifies the table: the state after `Match` is the state before (the
     generated fact says the writes to URL and Pattern go to a copy). -/
